@@ -170,7 +170,7 @@ CHECKS = {
         profile="readonly", cat="exploration", ref="DESIGN.md section 4 C14",
         text="Phase A builds a file with the mixed H/V/VS/SD/GR/AN workload (linked-block, external, chunked, "
              "compressed objects). Phase B freezes every file in the simulated disk, opens read-only through Hopen/"
-             "SDstart (+Vstart/GRstart/ANstart) and runs a random program of reads, inquiries and 64 kinds of "
+             "SDstart (+Vstart/GRstart/ANstart) and runs a random program of reads, inquiries and 69 kinds of "
              "mutation calls: the disk monitor must see no mutating I/O event (reported at the event), the bytes "
              "must be identical, every mutator must return its failure value. Phase C opens read-write (also files "
              "patched to carry an older library version), edits nothing, closes: every object and every raw element "
